@@ -97,6 +97,31 @@ Theorem recorder_every_rpc : forall compress snap k r after normal,
 Proof. exact recorder_proof. Qed.
 Print Assumptions recorder_every_rpc.
 
+(* ---- the interceptor in front of the streaming handlers (firstReqCachingStream) ---- *)
+(* for ANY script of stream outcomes whose first one is not a request with a raw response (a request without one,
+   or an error) and ANY number n of Receive calls: the handler behind the interceptor sees exactly what it would
+   see on the stream itself - the cached first request (or the error of that Receive) once, then the stream *)
+Theorem caching_stream_transparent : forall script n started,
+  match script with RMsg _ true :: _ => False | _ => True end ->
+  wrap_streaming true started script n = WHandler (fst (direct_handler n script)) (Nat.max 1 n).
+Proof. exact caching_transparent_proof. Qed.
+Print Assumptions caching_stream_transparent.
+
+(* a first request with a raw response: the handler never runs - nothing it would have produced can reach the
+   writer -, the raw response is stored and the request stream is read up to its first error (drain_spec:
+   every message before it); if a normal response had already started nothing is stored and nothing drained *)
+Theorem raw_first_skips_handler : forall d rest n,
+  wrap_streaming true false (RMsg d true :: rest) n = WRaw (S (drain rest)) true 1 /\
+  wrap_streaming true true (RMsg d true :: rest) n = WRaw 1 false 2.
+Proof. exact raw_first_proof. Qed.
+Print Assumptions raw_first_skips_handler.
+
+Theorem drain_reads_to_first_error : forall msgs rest,
+  Forall is_msg msgs -> match rest with [] => True | RErr _ :: _ => True | _ => False end ->
+  drain (msgs ++ rest) = S (length msgs).
+Proof. exact drain_spec. Qed.
+Print Assumptions drain_reads_to_first_error.
+
 (* ---- raw request ---- *)
 (* for ALL raw requests whose URI is empty or starts with '/', '?' or '#' (anything else runs into the
    authority, see request_refused) and can be parsed at all: the request handed to the transport has the
@@ -222,4 +247,11 @@ Example ex_request_refused :
   raw_request toy_c live_orig (mk_rawreq (bs "GET") (bs "/a%zz") [] [] [] BNone) = RError /\
   raw_request toy_c live_orig (mk_rawreq (bs "GET") (bs "a/b") [] [] [] BNone) = RError /\
   uri_wellformed (bs "/a%zz") = false /\ uri_class (bs "a/b") false = UGlued.
+Proof. vm_compute. repeat split. Qed.
+(* the interceptor: a cached first request is replayed once; an error of the first Receive too *)
+Example ex_cache :
+  wrap_streaming true false [RMsg (bs "a") false; RMsg (bs "b") true; RErr 7] 4 =
+    WHandler [RMsg (bs "a") false; RMsg (bs "b") true; RErr 7; RErr 0] 4 /\
+  wrap_streaming true false [RErr 7; RMsg (bs "a") false] 2 = WHandler [RErr 7; RMsg (bs "a") false] 2 /\
+  wrap_streaming true false [RMsg (bs "a") true; RMsg (bs "b") false; RErr 7; RMsg (bs "c") false] 3 = WRaw 3 true 1.
 Proof. vm_compute. repeat split. Qed.
